@@ -199,7 +199,8 @@ end
 
 /-! ## power_spectrum: index bookkeeping regenerated from wfe.py (Gen/PowerSpectrum.lean) -/
 
-/-- the frequency grid / filter and the noise array both have the mask's (rows, cols) shape, square or not — stated about
+/-- (a PIN on regenerated text: the numeric model works on the flattened map and does not consume these shapes) the frequency grid /
+filter and the noise array both have the mask's (rows, cols) shape, square or not — stated about
 the shapes **as the source builds them** (`n, m = mask.shape; mgrid[0:n, 0:m]; normal(size=[n, m])`, re-read on every run):
 swapping rows and columns anywhere changes a generated definition and this stops checking -/
 theorem filter_shape_eq_mask_shape (rows cols : Int) :
@@ -213,16 +214,16 @@ theorem frequency_grid_per_axis (rows cols i j : Int) :
 /-! ## reproducibility -/
 
 /-- every seeded model is a function of its arguments and seed only (regenerated part, read off the source on every run):
-each function that takes a `seed` either builds its generator as `default_rng(seed)` — the bare parameter, nothing derived
+EVERY function with a parameter named `seed` (the filter is on the signature, `takesSeed`) either builds its generator as `default_rng(seed)` — the bare parameter, nothing derived
 from it (`seed % 2**32`, `seed or 0`, no argument) — or hands `seed` on unchanged to such a function (`rule07_dark_current →
 dark_current`); none of them touches the global generator, a cache or a module global, or writes an argument in place;
 in the model the wrappers take the sampler, the seed and the arguments and nothing else -/
 theorem seeded_is_function_of_args :
-    (Gen.effTable.filter fun r => r.seeded || !r.seedForward.isEmpty).map (fun r => (r.fn, r.rngArgs, r.seedForward)) =
+    (Gen.effTable.filter fun r => r.takesSeed).map (fun r => (r.fn, r.rngArgs, r.seedForward)) =
       [("detector.dark_current", ["seed"], []), ("detector.read_noise", ["seed"], []),
        ("detector.rule07_dark_current", [], [("detector.dark_current", "seed")]),
        ("detector.shot_noise", ["seed"], []), ("wfe.power_spectrum", ["seed"], [])] ∧
-    (Gen.effTable.filter fun r => r.seeded || !r.seedForward.isEmpty).map
+    (Gen.effTable.filter fun r => r.takesSeed).map
         (fun r => (r.globalRng, r.writes, r.cacheWrites, r.globalWrites)) = List.replicate 5 (false, [], [], []) ∧
     -- no other function builds a generator at all
     (Gen.effTable.filter fun r => !r.rngArgs.isEmpty && !r.seeded).map (·.fn) = [] := by decide +kernel
